@@ -59,7 +59,7 @@ func (c *Config) has(f string) bool {
 
 var allFeatures = []string{
 	"exits", "proposer_slashings", "attester_slashings", "deposits", "bls_changes", "sync_partial",
-	"forks", "late_atts", "low_balances", "blobs", "epoch_gap",
+	"forks", "late_atts", "low_balances", "blobs", "epoch_gap", "late_merge",
 	// faults
 	"crash_restart", "multi_slot_jumps", "partition",
 }
@@ -1064,10 +1064,20 @@ func (w *World) produce(parent *blockRec, slot uint64) (*blockRec, error) {
 		lh, _ := bs.LatestExecutionPayloadHeader()
 		lhr, _ := lh.Raw()
 		b.ExecutionPayload = bellatrix.ExecutionPayload{ParentHash: lhr.BlockHash, PrevRandao: prevRandao, Timestamp: common.Timestamp(ts), BlockHash: blockHash, BlockNumber: view.Uint64View(w.payloadN), GasLimit: 30_000_000}
-		if (lhr.BlockHash == common.Root{}) {
+		premerge := lhr.BlockHash == common.Root{}
+		if premerge {
 			b.ExecutionPayload.ParentHash = fnvRoot("terminal-pow", 1)
 		}
-		kinds |= kPayload
+		if premerge && w.cfg.has("late_merge") && w.rng.Chance(2, 3) {
+			// the merge has not happened yet and does not happen in this block: an empty payload
+			b.ExecutionPayload = bellatrix.ExecutionPayload{}
+			w.res.Stat("blocks_bellatrix_before_the_merge", 1)
+		} else {
+			if premerge {
+				w.res.Stat("blocks_merge_transition", 1)
+			}
+			kinds |= kPayload
+		}
 		body = b
 	case 3:
 		b := &capella.BeaconBlockBody{RandaoReveal: randao, Eth1Data: eth1, ProposerSlashings: ps, AttesterSlashings: as, Attestations: atts, Deposits: deps, VoluntaryExits: exits, SyncAggregate: *syncAgg, BLSToExecutionChanges: changes}
